@@ -74,6 +74,30 @@ Theorem C05_canonical_request_pins_target : forall H, (forall x, wfb (H x)) ->
 Proof. exact canonical_request_pins_target. Qed.
 Print Assumptions C05_canonical_request_pins_target.
 
+(* the header block: it is the rendering of the folded header lines (the skipped name removed, consecutive equal names
+   folded into one line, canonical values joined by ','), and determines them - for header names without ':' and values
+   without line feeds, which http guarantees; so, all together, equal canonical requests agree in everything signed *)
+From S3V Require Import proofs.HeaderLines.
+Theorem C05_canonical_headers_pin_lines : forall sh1 sh2, Forall header_ok sh1 -> Forall header_ok sh2 ->
+  canonical_headers sh1 = canonical_headers sh2 -> folded_lines sh1 = folded_lines sh2.
+Proof. exact canonical_headers_pin_lines. Qed.
+Print Assumptions C05_canonical_headers_pin_lines.
+Theorem C05_canonical_request_pins_request : forall H, (forall x, wfb (H x)) ->
+  forall m1 p1 q1 sh1 pl1 m2 p2 q2 sh2 pl2,
+  no_nl m1 -> no_nl m2 -> wfb p1 -> wfb p2 -> wf_qs q1 -> wf_qs q2 ->
+  Forall (fun p => no_nl (fst p)) sh1 -> Forall (fun p => no_nl (fst p)) sh2 ->
+  Forall header_ok sh1 -> Forall header_ok sh2 ->
+  canonical_request H m1 p1 q1 sh1 pl1 = canonical_request H m2 p2 q2 sh2 pl2 ->
+  m1 = m2 /\ p1 = p2 /\ Permutation q1 q2 /\ folded_lines sh1 = folded_lines sh2
+  /\ signed_names sh1 = signed_names sh2 /\ payload_text H pl1 = payload_text H pl2.
+Proof. exact canonical_request_pins_request. Qed.
+Print Assumptions C05_canonical_request_pins_request.
+Example C05_folded_lines_example :
+  folded_lines [(b "authorization", b "x"); (b "host", b " s3.example.com "); (b "x-amz-meta-a", b "1"); (b "x-amz-meta-a", b "2  3")]
+  = [(b "host", b "s3.example.com"); (b "x-amz-meta-a", b "1,2 3")].
+Proof. exact folded_lines_example. Qed.
+Print Assumptions C05_folded_lines_example.
+
 (* tamper evidence: two requests accepted under the same signature, key and scope agree in every canonical component, or
    the hash collides on their canonical requests, or the HMAC chain collides on two different strings to sign *)
 Theorem C05_tamper_needs_collision : forall H, (forall x, wfb (H x)) ->
